@@ -66,6 +66,13 @@ def stepXapi (args : List String) : String :=
     match parseInt x, parseInt y, parseNat r, parseNat ct, parseNat cr with
     | some x, some y, some r, some ct, some cr => toHex (encode_dfr8 x y r ct cr)
     | _, _, _, _, _ => "bad-op"
+  | ["spread", w, h, xdim, ydim, d] =>
+    match parseNat w, parseNat h, parseNat xdim, parseNat ydim, parseHex d with
+    | some w, some h, some xdim, some ydim, some img =>
+      -- the image is read contiguously to the start of the caller's buffer (rest: whatever was there), then spread
+      let buf := img ++ List.replicate (xdim * ydim - img.length) 0xA5
+      toHex (imageArea w h xdim (spreadRows w h xdim buf))
+    | _, _, _, _, _ => "bad-op"
   | ["dimrd", rd, d] => match parseHex d with
     | some bs =>
       let r := if rd == "dfr8" then decode_dfr8 bs else if rd == "dfgr" then decode_dfgr bs else decode_mfgr bs
